@@ -188,6 +188,44 @@ func c13Check(c *Ctx, b *roaring.Bitmap, m *ISet, mutate bool) {
 			if c.Failed() {
 				return
 			}
+			// second generation: the mutated view is frozen again; the three writers, the independent parser and a view
+			// of the new bytes (taken with a fresh bitmap and with the mutated view itself as receiver) must agree
+			c.Step("second generation: freeze the mutated view and view the new bytes")
+			c.Guard("FrozenView/second-generation", func() {
+				fz2, err := vm.B.Freeze()
+				if err != nil || uint64(len(fz2)) != vm.B.GetFrozenSizeInBytes() {
+					c.Fail("FrozenView/second-generation/Freeze", "Freeze of the mutated view: err=%v len=%d GetFrozenSizeInBytes=%d", err, len(fz2), vm.B.GetFrozenSizeInBytes())
+					return
+				}
+				var wb bytes.Buffer
+				if n, err := vm.B.WriteFrozenTo(&wb); err != nil || n != wb.Len() || !bytes.Equal(wb.Bytes(), fz2) {
+					c.Fail("FrozenView/second-generation/WriteFrozenTo", "WriteFrozenTo of the mutated view differs from Freeze (n=%d err=%v)", n, err)
+					return
+				}
+				if fs2, _, ferr := frozenDecode(fz2); ferr != nil || !fs2.Equal(vm.M) {
+					c.Fail("FrozenView/second-generation/independent-parser", "independent parser on the re-frozen bytes: err=%v equal=%v", ferr, fs2 != nil && fs2.Equal(vm.M))
+					return
+				}
+				for _, self := range []bool{false, true} {
+					dst := roaring.New()
+					if self {
+						dst = vm.B
+					}
+					if err := dst.FrozenView(fz2); err != nil {
+						c.Fail("FrozenView/second-generation/view", "FrozenView of the re-frozen bytes (receiver is the mutated view itself=%v): %v", self, err)
+						return
+					}
+					if d := checkEq(dst, vm.M); d != "" {
+						c.Fail("FrozenView/second-generation/content", "view of the re-frozen bytes (receiver is the mutated view itself=%v): %s", self, d)
+						return
+					}
+				}
+				c.Eval(4)
+				_ = fz2[len(fz2)-1]
+			})
+			if c.Failed() {
+				return
+			}
 			// a second view of the same bytes takes part in a population machine: in-place algebra with the
 			// view as receiver and as argument, aggregates containing it, derived bitmaps, mutations of all
 			fv2 := roaring.New()
